@@ -19,12 +19,16 @@ import (
 	"sync"
 	"time"
 
+	apierrors "k8s.io/apimachinery/pkg/api/errors"
+	"k8s.io/apimachinery/pkg/runtime"
 	"k8s.io/client-go/rest"
+	k8stesting "k8s.io/client-go/testing"
 
 	proxyv1alpha1 "github.com/kubewharf/kubegateway/pkg/apis/proxy/v1alpha1"
 	"github.com/kubewharf/kubegateway/pkg/ratelimiter/clientsets"
 	limutil "github.com/kubewharf/kubegateway/pkg/ratelimiter/util"
 	"github.com/kubewharf/kubegateway/pkg/zzverif/vsched"
+	"github.com/kubewharf/kubegateway/pkg/zzverif/vtime"
 
 	"verifh/ev"
 	"verifh/kit"
@@ -330,6 +334,7 @@ type sysL struct {
 	// pending[sh]: OnNewLeader(other) arrived while this server was leading shard sh; client-go then always
 	// delivers OnStoppedLeading next (same goroutine: renew fails, Run returns), never OnStartedLeading
 	pending [2]bool
+	apiDown bool // (store kind k8s-writeback-api-failures) the control plane refuses writes
 }
 
 func findUpstreams() [2]string {
@@ -353,6 +358,18 @@ func specLeader(store string) xstate.Spec {
 		New: func() interface{} {
 			vsched.InlineGo = true
 			s := &sysL{rig: limrig.New(2, store), ups: ups, store: store}
+			if store == "k8s-writeback-api-failures" {
+				// write-back mode again, with the API refusing writes as one more thing that can happen: the final flush of
+				// a shard that is given up then fails (the server retries with virtual sleeps, then drops the store)
+				vtime.SetVirtual(time.Unix(1700000000, 0))
+				s.rig = limrig.NewWithSyncPeriod(2, "k8s", 24*time.Hour)
+				s.rig.GW.PrependReactor("*", "ratelimitconditions", func(a k8stesting.Action) (bool, runtime.Object, error) {
+					if s.apiDown && (a.GetVerb() == "create" || a.GetVerb() == "update" || a.GetVerb() == "delete") {
+						return true, nil, apierrors.NewServiceUnavailable("the control plane refuses writes")
+					}
+					return false, nil, nil
+				})
+			}
 			if store == "k8s-writeback" {
 				// the limiter binary's default for --limit-store=k8s: conditions are written to the API by a periodic flush
 				// (never reached in a run) and by the final flush when the shard is given up
@@ -375,6 +392,9 @@ func specLeader(store string) xstate.Spec {
 				evs = append(evs, fmt.Sprintf("report %d", sh), fmt.Sprintf("acquire %d", sh), fmt.Sprintf("clusterUpdate %d", sh), fmt.Sprintf("clusterDelete %d", sh))
 			}
 			evs = append(evs, "cleanup")
+			if store == "k8s-writeback-api-failures" {
+				evs = append(evs, "api-down", "api-up")
+			}
 			return evs
 		},
 		Apply: func(si interface{}, e string) error {
@@ -395,6 +415,14 @@ func specLeader(store string) xstate.Spec {
 				if after := s.rig.Dump(s.ups[:], schemas); after != before {
 					return fmt.Errorf("refused-but-changed-state: %s for shard %d was refused but the stores changed: %s -> %s", op, sh, before, after)
 				}
+				return nil
+			}
+			switch op {
+			case "api-down":
+				s.apiDown = true
+				return nil
+			case "api-up":
+				s.apiDown = false
 				return nil
 			}
 			switch op {
@@ -502,7 +530,7 @@ func specLeader(store string) xstate.Spec {
 		},
 		Canon: func(si interface{}) string {
 			s := si.(*sysL)
-			return fmt.Sprint(s.leader, s.pending, s.inList, s.rig.Dump(s.ups[:], schemas), persisted(s))
+			return fmt.Sprint(s.leader, s.pending, s.inList, s.apiDown, s.rig.Dump(s.ups[:], schemas), persisted(s))
 		},
 	}
 }
@@ -528,7 +556,7 @@ func main() {
 		"the limiter servers the gateway talks to are loopback HTTP stubs serving /ratelimit/endpoints; the gateway-side clientSets is the real one without its timer loops (its sync() is called by the driver)",
 		"names: every byte string of length <= 2 over a 24-byte alphabet plus generated realistic names; N from the stated list",
 	}
-	specs := []xstate.Spec{specLeader("local"), specLeader("k8s"), specLeader("k8s-writeback")}
+	specs := []xstate.Spec{specLeader("local"), specLeader("k8s"), specLeader("k8s-writeback"), specLeader("k8s-writeback-api-failures")}
 	if c.ReplayFile() != "" {
 		xstate.ReplayIfAsked(c, specs)
 	}
@@ -553,6 +581,7 @@ func main() {
 	tasks = append(tasks, xstate.Tasks(c, specLeader("local"), c.Pick(10, 14), 16)...)
 	tasks = append(tasks, xstate.Tasks(c, specLeader("k8s"), c.Pick(9, 12), 16)...)
 	tasks = append(tasks, xstate.Tasks(c, specLeader("k8s-writeback"), c.Pick(8, 11), 16)...)
+	tasks = append(tasks, xstate.Tasks(c, specLeader("k8s-writeback-api-failures"), c.Pick(6, 8), 18)...)
 	c.RunTasks(tasks)
 	c.Finish(map[string]interface{}{
 		"states":                        c.Counter("states"),
